@@ -49,6 +49,7 @@ cache_get_page(struct page_io *pio, read_page_fn *fn)
 {
 	kdump_ctx_t *ctx = pio->ctx;
 	struct cache_entry *entry;
+	bool valid;
 	kdump_status ret;
 
 	mutex_lock(&ctx->shared->cache_lock);
@@ -56,6 +57,8 @@ cache_get_page(struct page_io *pio, read_page_fn *fn)
 	pio->chunk.embed_fces->cache = ctx->shared->cache;
 	entry = cache_get_entry(pio->chunk.embed_fces->cache,
 				pio->addr.addr | pio->addr.as);
+	/* The entry state may be changed by other clones. */
+	valid = entry && cache_entry_valid(entry);
 	mutex_unlock(&ctx->shared->cache_lock);
 	if (!entry)
 		return set_error(ctx, KDUMP_ERR_BUSY,
@@ -63,7 +66,7 @@ cache_get_page(struct page_io *pio, read_page_fn *fn)
 
 	pio->chunk.data = entry->data;
 	pio->chunk.embed_fces->ce = entry;
-	if (cache_entry_valid(entry))
+	if (valid)
 		return KDUMP_OK;
 
 	ret = fn(pio);
